@@ -219,20 +219,33 @@ def oracle_statsmodels(case, ctx):
         from sktime.forecasting.exp_smoothing import ExponentialSmoothing
 
         o = case["opts"]
-        f = ExponentialSmoothing(trend=o["trend"], damped_trend=o["damped"], seasonal=o["seasonal"], sp=o["sp"])
+        extra = {"use_boxcox": o.get("use_boxcox"), "initialization_method": o.get("init", "estimated")}
+        if extra["initialization_method"] == "known":
+            extra["initial_level"] = float(y.iloc[0])
+            if o["trend"]:
+                extra["initial_trend"] = 0.5 if o["trend"] == "add" else 1.01
+            if o["seasonal"]:
+                extra["initial_seasonal"] = [0.25 * (j + 1) if o["seasonal"] == "add" else 1.0 + 0.01 * (j + 1) for j in range(o["sp"])]
+        f = ExponentialSmoothing(trend=o["trend"], damped_trend=o["damped"], seasonal=o["seasonal"], sp=o["sp"], **extra)
         ref = sut(lambda: SM(pd.Series(y.to_numpy(), index=pd.RangeIndex(len(y))), trend=o["trend"],
-                             damped_trend=o["damped"], seasonal=o["seasonal"], seasonal_periods=o["sp"],
-                             initialization_method="estimated").fit())
+                             damped_trend=o["damped"], seasonal=o["seasonal"], seasonal_periods=o["sp"], **extra).fit())
+        ctx.label("use_boxcox=%r" % (o.get("use_boxcox"),))
+        ctx.label("init=%s" % extra["initialization_method"])
     else:
         from statsmodels.tsa.exponential_smoothing.ets import ETSModel as SM
 
         from sktime.forecasting.ets import AutoETS
 
         o = case["opts"]
+        init = o.get("init", "estimated") if o.get("init") in ("estimated", "heuristic") else "estimated"
+        if init == "heuristic" and (len(y) < 10 or (o["seasonal"] and len(y) < 2 * (o["sp"] or 1) + 10)):
+            init = "estimated"
         f = AutoETS(error=o["error"], trend=o["trend"], damped_trend=o["damped"], seasonal=o["seasonal"],
-                    sp=o["sp"] or 1, auto=False)
+                    sp=o["sp"] or 1, auto=False, initialization_method=init)
         ref = sut(lambda: SM(pd.Series(y.to_numpy(), index=pd.RangeIndex(len(y))), error=o["error"], trend=o["trend"],
-                             damped_trend=o["damped"], seasonal=o["seasonal"], seasonal_periods=o["sp"] or 1).fit(disp=False))
+                             damped_trend=o["damped"], seasonal=o["seasonal"], seasonal_periods=o["sp"] or 1,
+                             initialization_method=init).fit(disp=False))
+        ctx.label("init=%s" % init)
     if isinstance(ref, Raised):
         # statsmodels itself refuses this configuration: sktime must not return a forecast
         r = sut(lambda: f.fit(y).predict(steps))
@@ -276,7 +289,9 @@ def sm_cases(draw):
     n = draw(st.integers(max(12, 4 * (sp or 1)), 36))
     vals = draw(gen.series_values(n, n, lo=20.0, hi=200.0))
     steps = draw(st.lists(st.integers(-(n - 1), 9), min_size=1, max_size=5, unique=True).map(sorted))
-    opts = {"trend": trend, "damped": damped, "seasonal": seasonal, "sp": sp}
+    opts = {"trend": trend, "damped": damped, "seasonal": seasonal, "sp": sp,
+            "use_boxcox": draw(st.sampled_from([None, None, False, True, 0.0, 0, 0.5])) if model == "expsmooth" else None,
+            "init": draw(st.sampled_from(["estimated", "estimated", "heuristic", "known"]))}
     if model == "ets":
         opts["error"] = draw(st.sampled_from(["add", "mul"]))
     return {"model": model, "opts": opts, "values": vals, "fh": steps,
@@ -292,7 +307,7 @@ def subchecks():
                             thorough=6000, shards_quick=1, shards_thorough=4))
     out.append(SubCheck("polytrend", oracle_trend, trend_cases(), quick=600, thorough=10000, shards_quick=2,
                         shards_thorough=4))
-    out.append(SubCheck("statsmodels_differential", oracle_statsmodels, sm_cases(), quick=80, thorough=2000,
+    out.append(SubCheck("statsmodels_differential", oracle_statsmodels, sm_cases(), quick=400, thorough=2000,
                         shards_quick=4, shards_thorough=16))
     return out
 
